@@ -105,6 +105,11 @@ pub struct Runner {
     /// instantiate / UpdateParams messages determines them (threshold capped at 1, an omitted field
     /// keeps its value), independent of what the hub stores
     pub ghost_params: Option<(u64, u64, u128, u128)>,
+    /// the mirror path has named the system's own contracts at every step since genesis
+    pub mirror_trust: bool,
+    pub saved_mirror_trust: bool,
+    /// no contract has been instantiated a second time in this history
+    pub inst_once: bool,
     pub saved_params: Option<(u64, u64, u128, u128)>,
     /// E1 (magnitudes ≤ 10^18) has been left in this history
     pub e1_broken: bool,
@@ -132,6 +137,9 @@ impl Runner {
             ghost_allow: BTreeMap::new(),
             ghost_last_und: None,
             ghost_params: None,
+            mirror_trust: true,
+            saved_mirror_trust: true,
+            inst_once: true,
             saved_params: None,
             e1_broken: false,
             deep: std::env::var("KRP_DEEP").map(|v| v == "1").unwrap_or(false),
@@ -157,6 +165,8 @@ impl Runner {
             self.ghost_allow.clear();
             self.ghost_last_und = None;
             self.ghost_params = None;
+            self.mirror_trust = true;
+            self.inst_once = true;
             self.history += 1;
             self.bsei_init_with_balances = false;
             self.e1_broken = false;
@@ -164,11 +174,13 @@ impl Runner {
         }
         if let Op::Save = op {
             self.saved_params = self.ghost_params;
+            self.saved_mirror_trust = self.mirror_trust;
             self.saved = Some((self.chain.clone(), self.envelope, self.bsei_init_with_balances, self.ghost_roles.clone(), self.ghost_recorded, self.ghost_completion.clone(), self.e2_ok, self.ghost_allow.clone(), self.ghost_last_und));
             return "ok | save".to_string();
         }
         if let Op::Restore = op {
             self.ghost_params = self.saved_params;
+            self.mirror_trust = self.saved_mirror_trust;
             if let Some((c, e, b, g, gr, gc, e2, ga, glu)) = self.saved.clone() {
                 self.ghost_last_und = glu;
                 self.ghost_allow = ga;
@@ -249,6 +261,7 @@ impl Runner {
                     // a re-instantiation in the middle of a history resets that contract: the
                     // cross-contract invariants are no longer meaningful for the rest of it
                     self.envelope = false;
+                    self.inst_once = false;
                 }
             }
         }
@@ -346,6 +359,9 @@ impl Runner {
                     self.ghost_completion.insert(h.id, self.chain.time + self.chain.unbonding_time);
                 }
             }
+            if self.genesis_done && !mirror_wired(&self.chain) {
+                self.mirror_trust = false;
+            }
             let ghost_completion = if self.e2_ok { Some(self.ghost_completion.clone()) } else { None };
             let cx = StepCtx {
                 pre: &pre,
@@ -362,8 +378,44 @@ impl Runner {
                 ghost_allow: &self.ghost_allow,
                 ghost_last_und: self.ghost_last_und,
                 envelope: self.envelope && !self.bsei_init_with_balances && !self.e1_broken && self.chain.withdraw_addr == DISP,
+                mirror_ok: self.genesis_done && self.mirror_trust && !self.bsei_init_with_balances && !self.e1_broken && self.inst_once,
             };
             let cx_envelope = cx.envelope;
+            // an upgrade to the same code changes nothing: every `migrate` entry point of the
+            // repository is the identity on a current deployment
+            if let Op::Env(EnvOp::Migrate(c)) = op {
+                if r.ok {
+                    let (a, b) = (pre_chain.observe(), self.chain.observe());
+                    if a != b {
+                        let diff: Vec<String> = a.split(' ').zip(b.split(' ')).filter(|(x, y)| x != y).map(|(x, y)| format!("{} → {}", x.chars().take(90).collect::<String>(), y.chars().take(90).collect::<String>())).take(3).collect();
+                        let fields: Vec<&str> = a.split(' ').zip(b.split(' ')).filter(|(x, y)| x != y).map(|(x, _)| x.split('=').next().unwrap_or("")).collect();
+                        let detail = format!("upgrade of contract {} to the same code changed the state: {}", c, diff.join("; "));
+                        let mut props: Vec<&'static str> = vec![];
+                        for f in fields.iter() {
+                            let ps: &[&'static str] = match *f {
+                                "params" => &["C11", "C20"],
+                                "legacy" | "users[" => &["C11", "C07"],
+                                "cfg" => &["C10", "C20"],
+                                "hub.raw" | "hub.q" | "batch" => &["C04", "C02"],
+                                "hist" => &["C08"],
+                                "bsei" | "stsei" => &["C18"],
+                                "rw" => &["C16", "C14"],
+                                "disp" => &["C20", "C17"],
+                                "reg" => &["C13"],
+                                _ => &["C11"],
+                            };
+                            for p in ps {
+                                if !props.contains(p) {
+                                    props.push(p);
+                                }
+                            }
+                        }
+                        for p in props {
+                            self.violations.push((self.history, self.line_no, Violation { prop: p, class: "upgrade-changed-state".into(), detail: detail.clone() }));
+                        }
+                    }
+                }
+            }
             if let Some(g) = self.ghost_params {
                 let stored = (post.epoch, post.unbonding, post.fee, post.thr);
                 if stored != g && !self.e1_broken {
@@ -427,8 +479,16 @@ impl Runner {
             } else if let Some(g) = self.ghost_recorded {
                 if post.rw.0 != pre.rw.0 {
                     self.ghost_recorded = Some(post.reward_bank);
-                } else if post.reward_bank < pre.reward_bank {
-                    self.ghost_recorded = Some(g.saturating_sub(pre.reward_bank - post.reward_bank));
+                } else {
+                    // what the contract paid out in the reward coin (deposits that arrive in the
+                    // same transaction are deliveries, not negative payouts)
+                    let paid: u128 = effects.iter().map(|e| match e {
+                        Effect::Bank { from, denom, amt, .. } if *from == REWARD && *denom == 1 => *amt,
+                        _ => 0,
+                    }).sum();
+                    if paid > 0 {
+                        self.ghost_recorded = Some(g.saturating_sub(paid));
+                    }
                 }
             }
             // coverage statistics
